@@ -299,9 +299,12 @@ class _Env:
                       'tools.encode.on': bool(cfg.get('encode')),
                       'request.show_tracebacks': False,
                       'hooks.on_end_resource': self.end_hook}}
+        if cfg.get('debug'):
+            conf['/']['tools.caching.debug'] = True       # the log lines of the anchored functions run too
         if cfg.get('expires') is not None:
             conf['/'].update({'tools.expires.on': True, 'tools.expires.secs': cfg['expires']['secs'],
-                              'tools.expires.force': bool(cfg['expires']['force'])})
+                              'tools.expires.force': bool(cfg['expires']['force']),
+                              'tools.expires.debug': bool(cfg.get('debug'))})
         if cfg.get('cache_class') is not None:
             conf['/']['tools.caching.cache_class'] = cfg['cache_class']
         return self.cherrypy.Application(self.root, '', conf)
@@ -863,7 +866,7 @@ def oracle_conc(scn, res):
 def gen_conc(rng):
     delay = rng.choice([1, 2, 2, 3])
     tight = rng.random() < 0.3
-    cfg = {'delay': delay,
+    cfg = {'delay': delay, 'debug': rng.random() < 0.08,
            'maxobjects': rng.choice([1, 2, 3]) if tight and rng.random() < 0.4 else 1000,
            'maxobj_size': rng.choice([13, 21]) if tight and rng.random() < 0.3 else 100000,
            'maxsize': rng.choice([13, 25, 33, 41]) if tight and rng.random() < 0.6 else 10000000}
@@ -954,7 +957,10 @@ def _examine_conc(scn):
 
 
 def _examine_conc_many(scns):
-    return [_examine_conc(s) for s in scns]
+    out = [_examine_conc(s) for s in scns]
+    if out:
+        out[-1]['cov'] = cov_snapshot()
+    return out
 
 
 def check_conc(ctx, scns, procs=None, expects=None, compare=True):
@@ -968,6 +974,8 @@ def check_conc(ctx, scns, procs=None, expects=None, compare=True):
         results = [r for chunk in common.parallel_map(_examine_conc_many, chunks, procs=procs) for r in chunk]
     else:
         results = _examine_conc_many(scns)
+    for r in results:
+        cov_merge(r.pop('cov', None))
     lines = [conc_line(s, r['acts']) for s, r in zip(scns, results)]
     model_out = ctx.model(lines) if compare else None
     for idx, (scn, r) in enumerate(zip(scns, results)):
@@ -1271,7 +1279,7 @@ def gen_cfg(rng):
     expires = None
     if rng.random() < 0.12:
         expires = {'secs': rng.choice([0, 0, 60, 3600]), 'force': rng.random() < 0.25, 'http10': rng.random() < 0.2}
-    return {'delay': delay, 'encode': rng.random() < 0.25, 'expires': expires,
+    return {'delay': delay, 'encode': rng.random() < 0.25, 'expires': expires, 'debug': rng.random() < 0.08,
             'maxobjects': rng.choice([1, 2, 3, 4]) if tight and rng.random() < 0.6 else 1000,
             'maxobj_size': rng.choice([12, 13, 20, 21, 40]) if tight and rng.random() < 0.5 else 100000,
             'maxsize': rng.choice([24, 32, 33, 40, 52, 60, 100]) if tight and rng.random() < 0.6 else 10000000}
@@ -1470,6 +1478,102 @@ def gen_case(rng, unstable=None, long=False):
 
 
 # ----------------------------------------------------------------------------------------------
+# which lines of the anchored functions did this run execute?  (sys.monitoring, one callback per line, then disabled)
+# ----------------------------------------------------------------------------------------------
+_COV = {'on': False, 'seen': set(), 'codes': {}}
+_COV_TOOL = 3
+
+
+def _anchored_codes():
+    """code object -> (file, qualified name) of the functions the property is anchored in."""
+    env = _Env.get()
+    from cherrypy import _cptools
+    from cherrypy.lib import cptools
+    caching = env.caching
+    asc = caching.__dict__.get('_c15_live_asc') or caching.AntiStampedeCache
+    fns = [('caching.py', 'AntiStampedeCache.wait', asc.__dict__.get('wait')),
+           ('caching.py', 'AntiStampedeCache.__setitem__', asc.__dict__.get('__setitem__'))]
+    for n in ('__init__', 'clear', 'expire_cache', 'get', 'put', 'delete'):
+        fns.append(('caching.py', 'MemoryCache.' + n, caching.MemoryCache.__dict__.get(n)))
+    for n in ('get', 'tee_output', 'expires'):
+        fns.append(('caching.py', n, caching.__dict__.get(n)))
+    fns.append(('_cptools.py', 'CachingTool._wrapper', _cptools.CachingTool.__dict__.get('_wrapper')))
+    fns.append(('cptools.py', 'validate_since', cptools.__dict__.get('validate_since')))
+    codes = {}
+
+    def add(code, f, name):
+        codes[code] = (f, name)
+        for c in code.co_consts:
+            if hasattr(c, 'co_code'):
+                add(c, f, name + '.' + c.co_name)
+    for f, name, fn in fns:
+        fn = getattr(fn, '__func__', fn)
+        if fn is not None and hasattr(fn, '__code__'):
+            add(fn.__code__, f, name)
+    return codes
+
+
+def cov_start():
+    """Start recording (parent process, before the workers are forked: they inherit the set-up)."""
+    mon = getattr(sys, 'monitoring', None)
+    if mon is None or _COV['on']:
+        return
+    try:
+        mon.use_tool_id(_COV_TOOL, 'c15-lines')
+    except ValueError:
+        return
+    _COV['codes'] = _anchored_codes()
+
+    def on_line(code, line):
+        _COV['seen'].add((_COV['codes'][code][1], line))
+        return mon.DISABLE
+    mon.register_callback(_COV_TOOL, mon.events.LINE, on_line)
+    for code in _COV['codes']:
+        mon.set_local_events(_COV_TOOL, code, mon.events.LINE)
+    _COV['on'] = True
+
+
+def cov_snapshot():
+    return sorted(_COV['seen'])
+
+
+def cov_merge(items):
+    for it in items or ():
+        _COV['seen'].add(tuple(it))
+
+
+def cov_report(ctx):
+    """ctx.extra['anchored_lines_not_executed']: the lines (with a statement on them) of the anchored functions
+    that no case of this run executed."""
+    if not _COV['on']:
+        ctx.extra['anchored_lines_not_executed'] = ['(sys.monitoring not available)']
+        return
+    import linecache
+    missing = []
+    total = 0
+    for code, (f, name) in sorted(_COV['codes'].items(), key=lambda kv: (kv[1][0], kv[0].co_firstlineno)):
+        lines = sorted({l for _, _, l in code.co_lines() if l is not None and l != code.co_firstlineno})
+        for l in lines:
+            src = linecache.getline(code.co_filename, l).strip()
+            if not src or src[0] in '#"\'' or src in ('else:', 'try:', 'finally:'):
+                continue
+            total += 1
+            if (name, l) not in _COV['seen']:
+                missing.append('%s:%d %s: %s' % (f, l, name, src[:90]))
+    ctx.extra['anchored_lines_not_executed'] = missing
+    ctx.extra['anchored_lines_total'] = total
+    mon = sys.monitoring
+    try:
+        for code in _COV['codes']:
+            mon.set_local_events(_COV_TOOL, code, 0)
+        mon.register_callback(_COV_TOOL, mon.events.LINE, None)
+        mon.free_tool_id(_COV_TOOL)
+    except Exception:
+        pass
+    _COV['on'] = False
+
+
+# ----------------------------------------------------------------------------------------------
 # checking
 # ----------------------------------------------------------------------------------------------
 def _examine(case):
@@ -1481,7 +1585,10 @@ def _examine(case):
 
 
 def _examine_many(cases):
-    return [_examine(c) for c in cases]
+    out = [_examine(c) for c in cases]
+    if out:
+        out[-1]['cov'] = cov_snapshot()
+    return out
 
 
 def _fails_with(case, sig):
@@ -1507,6 +1614,8 @@ def check_cases(ctx, cases, compare=True, procs=None):
         results = [r for chunk in common.parallel_map(_examine_many, chunks, procs=procs) for r in chunk]
     else:
         results = _examine_many(cases)
+    for r in results:
+        cov_merge(r.pop('cov', None))
     lines = [model_line(c) for c in cases]
     model_out = ctx.model(lines) if compare else None
     reported = set()
@@ -1796,6 +1905,14 @@ end CpModel.Gen.C15
 
 # ----------------------------------------------------------------------------------------------
 def run(ctx):
+    cov_start()
+    try:
+        _run(ctx)
+    finally:
+        cov_report(ctx)
+
+
+def _run(ctx):
     for e in ctx.known:
         c = witness_case(e)
         if c is not None:
